@@ -126,6 +126,17 @@ func DefaultGenesis() GenesisSpec {
 	}
 }
 
+// AllegGenesis: four active validators, so that allegation votes have a quorum to cross.
+func AllegGenesis() GenesisSpec {
+	gs := DefaultGenesis()
+	gs.Validators = []GenValidator{{"v1", 5}, {"v2", 4}, {"v3", 4}, {"v4", 3}}
+	gs.Candidates = nil
+	gs.Witnesses = []string{"v1", "v2"}
+	gs.Staking.Top = 4
+	gs.Evidence.ReleaseDays = 30
+	return gs
+}
+
 type Genesis struct {
 	Spec       GenesisSpec
 	Doc        *config.GenesisDoc
